@@ -7,8 +7,8 @@ import vlib
 
 PROP = "C09"
 
-LO_U = [["n", i] for i in (-1, 0, 1, 2, 3, 4, 5, 6)] + [["f", 1], ["s", "a"], ["s", "b"], ["b", True], ["t", 1]]
-HI_U = [["n", i] for i in (-1, 0, 1, 2, 3, 4, 67108864, 67108865)] + [["f", 1], ["s", "a"], ["s", "b"], ["b", True], ["t", 1]]
+LO_U = [["n", i] for i in (-1, 0, 1, 2, 3, 4, 5, 6)] + [["f", 1], ["s", "a"], ["s", "b"], ["b", True], ["b", False], ["t", 1]]
+HI_U = [["n", i] for i in (-1, 0, 1, 2, 3, 4, 67108864, 67108865)] + [["f", 1], ["s", "a"], ["s", "b"], ["b", True], ["b", False], ["t", 1]]
 VALS = [["nil"], ["n", 10], ["b", False], ["s", "x"], ["t", 2]]
 
 
